@@ -21,6 +21,10 @@ type Universe struct {
 	Amounts    []uint64
 	// BadReceiverPct: percentage of cross-chain transfers with an invalid receiver (-> error ack)
 	BadReceiverPct int
+	// NoNewMTIDs disables operations that make irismod's MT module generate a new
+	// denom / MT id from its internal counters (used after a genesis re-import:
+	// whether irismod restores those counters is outside TIBC)
+	NoNewMTIDs bool
 	// RelayPct: percentage of transfers that name a relay chain (needs >= 3 chains)
 	RelayPct int
 }
@@ -206,8 +210,14 @@ func (e *Engine) RandomUserOp(n *world.Node, u Universe) *world.TxResult {
 		dest, relay := e.pickRoute(n, u)
 		return e.NftTransfer(n, e.acct(t.Owner), t.Class, t.ID, e.pickReceiver(u), dest, relay)
 	case 5:
+		if u.NoNewMTIDs {
+			return nil
+		}
 		return e.IssueMTDenom(n, user, "mtc")
 	case 6:
+		if u.NoNewMTIDs {
+			return nil
+		}
 		cls := e.mtClassesOwnedBy(n, user)
 		if len(cls) == 0 {
 			return nil
